@@ -570,6 +570,7 @@ class Effects:
                 except Exception:
                     continue
                 if isinstance(t, ClassInfo) and "message" in t.module.name and o.attr not in ("header",) \
+                        and not o.attr.startswith("_") \
                         and self._is_message_class(t) and not self._none_guarded(o, n, f):
                     self._note(f, n, ["TypeError"], f"`{ast.unparse(o)}` is None when the AVP is absent")
                     return {"TypeError"}
